@@ -77,9 +77,12 @@ def applyOp (s : State) : IOp → State
   | .coWin loser a b =>
     match s.flows loser, s.actions a with
     | some f, some x =>
-      -- (the winner is normally STARTING; the interpreter also lets a head co-win with an action that is already
-      --  STOPPING — observed in recorded traces — so no status guard here: the invariant does not need one)
-      if a != b then
+      -- REPAIRED behaviour (fixes/C06-conflict-dead-heads.diff): the loser is a LISTENING flow that holds `b`
+      -- (`action_uids.index(b)` raises ValueError otherwise) and the winner's action is still STARTING.  The unpatched
+      -- `_resolve_action_conflicts` also lets a head co-win whose flow was aborted earlier in the same loop, or adopt
+      -- an action that was stopped again because the winner's flow was aborted by a losing flow (open finding
+      -- `cowin-after-abort-in-conflict`): on such traces model and code differ.
+      if a != b && f.status.listening && f.actionUids.contains b && x.status == .starting then
         let s1 := setFlow s loser { f with actionUids := f.actionUids.map fun y => if y == b then a else y }
         { setAction s1 a { x with count := x.count + 1 } with actions := fun v => if v = b then none else (setAction s1 a { x with count := x.count + 1 }).actions v }
       else s
